@@ -1,6 +1,6 @@
 """progen -- typed, executable programs: Hypothesis recipe strategies + deterministic builder.
 
-    program_recipes(features=None, **overrides) -> SearchStrategy[recipe]
+    program_recipes(features_=None, **overrides) -> SearchStrategy[recipe]   (feature dict and/or keyword flags)
     build(recipe) -> ModuleOp          valid by construction; module.verify() is asserted (failure = generator bug)
     input_vectors(func_recipe, n, ints, index_bits=64) -> [tuple of refsem-form argument values]
     entry(recipe) -> (function name, func_recipe)      the last function; it may call the earlier ones
